@@ -9,7 +9,9 @@ structure DSt where
   st : St := { cap := 1 <<< 14 }   -- managed state of the subject module (A, or api)
   mods : List Mod := []
   ids : List (String × Bool × Bool) := []  -- item id, held?, onstop?  (index = position in st.items)
-  taken : Nat := 0                 -- reports already printed
+  printed : Nat := 0               -- reports already printed
+  dev : Bool := false              -- core/devMode
+  manual : Bool := false           -- the error channel was configured by `chan`: it is read by `recv` ops only
   started : Bool := false
   startOK : Bool := false
   down : Bool := false
@@ -20,6 +22,12 @@ structure DSt where
 def pvOf : String → Option PCls
   | "nil" => some .nil
   | "err" => some .err
+  | "canc" | "wcanc" | "iscanc" | "joincanc" => some .errCanceled
+  | "rst" | "wrst" => some .errRestart
+  | "dl" | "wdl" => some .errDeadline
+  | "cexit" | "wcexit" => some .errCleanExit
+  | "moderr" | "nilerrptr" => some .err
+  | "nilstrg" => some .other
   | "str" => some .str
   | "rtidx" => some .rt
   | "rtnil" => some .rt
@@ -57,7 +65,8 @@ def ctrlTok (s : String) : Option (Option Outcome) :=
     | none => none
 
 def clsStr : PCls → String
-  | .nil => "nil" | .nilerr => "nilerr" | .err => "err" | .str => "str" | .rt => "rt" | .strct => "struct" | .other => "other"
+  | .nil => "nil" | .nilerr => "nilerr" | .err => "err" | .errCanceled => "err.canceled" | .errRestart => "err.restart"
+  | .errDeadline => "err.deadline" | .errCleanExit => "err.cleanexit" | .str => "str" | .rt => "rt" | .strct => "struct" | .other => "other"
 
 def typStr : TType → String
   | .worker => "worker" | .task => "task" | .microtask => "microtask" | .ctrl => "module-control"
@@ -81,6 +90,9 @@ def insertSorted (s : String) : List String → List String
 
 def sortedRepsStr (rs : List Report) : String :=
   if rs.isEmpty then "-" else "+".intercalate ((rs.map repStr).foldr insertSorted [])
+
+/-- status of the response; `d`: the body is the dev-mode page (panic value and stack trace) -/
+def httpStr (it : Item) : String := s!"{it.http}{if it.detail then "d" else ""}"
 
 def cntStr (s : St) : String :=
   s!"{s.w},{s.t},{s.m},{s.g},{if s.c then 1 else 0}"
@@ -123,13 +135,13 @@ def kindOf : String → Option Kind
   | "mt-start-high" | "mt-start-med" | "mt-start-low" => some (.mt false)
   | "hook-trigger" | "hook-inject" => some .hook
   | "api-action" | "api-data" | "api-struct" | "api-record" | "api-handlerfunc" | "api-rawhandler" | "api-rawfunc" =>
-    some (.api false)
+    some (.api false false)
   | _ => none
 
 def rawHandlerKind (k : String) : Bool := k == "api-handlerfunc" || k == "api-rawhandler" || k == "api-rawfunc"
 
 def isApiKind : Kind → Bool
-  | .api _ => true
+  | .api _ _ => true
   | _ => false
 
 def validName (n : String) : Bool :=
@@ -149,9 +161,19 @@ def subjectOnline (d : DSt) : Bool :=
 def taskBusy (d : DSt) : Bool :=
   d.st.items.any fun it => it.kind == .task && !it.done
 
-/-- Reports delivered since the last drain. -/
+/-- Reports in the channel buffer. -/
+def chLen (s : St) : Nat := s.feed.length - s.taken
+
+/-- The harness empties the error channel after every op — unless the scenario configured the channel itself
+    (`chan`): then it is read by `recv` ops only. Returns the reports received. -/
 def drain (d : DSt) : DSt × List Report :=
-  ({ d with taken := d.st.feed.length }, d.st.feed.drop d.taken)
+  if d.manual then (d, [])
+  else ({ d with st := { d.st with taken := d.st.feed.length }, printed := d.st.feed.length }, d.st.feed.drop d.printed)
+
+/-- `recv k`: the consumer takes up to `k` reports out of the buffer; printed with them: what parked receivers got. -/
+def recvK (d : DSt) (k : Nat) : DSt × List Report :=
+  let t := min d.st.feed.length (d.st.taken + k)
+  ({ d with st := { d.st with taken := t }, printed := t }, (d.st.feed.take t).drop d.printed)
 
 /-- Lifecycle reports (of any module) go through the same channel and `lastReportedError`. -/
 def pushReports (d : DSt) (rs : List Report) : DSt :=
@@ -167,8 +189,10 @@ def setHeld (ids : List (String × Bool × Bool)) (i : Nat) (h : Bool) : List (S
 def stopSubject (d : DSt) (fn : Option Outcome) : DSt × (CtrlRet × List Report) :=
   let n := d.st.items.length
   let it : Item := { kind := .stop, outs := (match fn with | some o => [o] | none => []), hasFn := fn.isSome }
-  let s0 := { d.st with items := d.st.items ++ [it] }
-  let before := s0.feed.length
+  -- the reports of this stop are collected on a channel of their own and pushed, in the order of the pass,
+  -- through `pushReports` (which applies the state of the real channel)
+  let s0 := { d.st with items := d.st.items ++ [it], chanSet := true, cap := 1 <<< 20, feed := [], taken := 0, waiting := 0, dropped := 0 }
+  let before := 0
   let s1 := runHeld 16 s0 n
   -- release every held item (all of them wait for ctx.Done())
   let s2 := (List.range n).foldl (fun s i => finishItem s i) s1
@@ -176,7 +200,7 @@ def stopSubject (d : DSt) (fn : Option Outcome) : DSt × (CtrlRet × List Report
   let s4 := runHeld 16 (finishItem s3 n) n
   let cret := (s4.items[n]?.bind (fun it => if it.sent then it.cret else none)).getD .nil
   -- the stop item is not a scenario item: remove it again
-  let s5 := { s4 with items := s4.items.take n, stopFlag := false, ctxDone := false, feed := s4.feed.take before }
+  let s5 := { s4 with items := s4.items.take n, stopFlag := false, ctxDone := false, chanSet := d.st.chanSet, cap := d.st.cap, feed := d.st.feed, taken := d.st.taken, waiting := d.st.waiting, dropped := d.st.dropped, last := d.st.last }
   ({ d with st := s5, ids := d.ids.map fun (id, _, os) => (id, false, os) }, (cret, s4.feed.drop before))
 
 /-- A stop pass over all modules; the subject's own stop runs on the scenario state. -/
@@ -213,7 +237,7 @@ def burstTok (d : DSt) (a : String) : Option Item :=
     match kindOf k, outcomesOf os with
     | some kd, some outs =>
       if isApiKind kd != d.apiMode || (kd == .hook && statusOf d.mods "B" != 5) || (kd == .task && taskBusy d) then none
-      else some { kind := kd, outs := outs }
+      else some { kind := (match kd with | .api aw _ => .api aw d.dev | k => k), outs := outs }
     | _, _ => none
   | _ => none
 
@@ -231,7 +255,7 @@ def burst (d : DSt) (args : List String) : DSt × String :=
         (match it.kind with
          | .runWorker => retStr it.cur it.ret
          | .mt true => retStr it.cur it.ret
-         | .api _ => toString it.http
+         | .api _ _ => httpStr it
          | _ => "-")
       | none => "?"
     let runs := idx.map fun i => match s2.items[i]? with
@@ -239,7 +263,7 @@ def burst (d : DSt) (args : List String) : DSt × String :=
       | none => "?"
     let d1 := { d with st := s2, ids := d.ids ++ idx.map fun i => (s!"b{i}", false, false) }
     let (d2, reps) := drain d1
-    (d2, s!"burst res={",".intercalate res} runs={",".intercalate runs} reps={sortedRepsStr reps} cnt={cntStr s2}")
+    (d2, s!"burst res={",".intercalate res} runs={",".intercalate runs} reps={sortedRepsStr reps} cnt={cntStr s2} ch={chLen d2.st}")
 
 def handle (d : DSt) (line : String) : DSt × String :=
   let f := PB.Drv.words line
@@ -268,6 +292,25 @@ def handle (d : DSt) (line : String) : DSt × String :=
       | [n, "on"] => some n
       | _ => none
     ({ d with mgmt := true, mods := d.mods.map fun m => { m with enabled := on.contains m.name } }, "ok")
+  | ["devmode", v] =>
+    -- config.SetConfigOption("core/devMode", …); not while a request is in flight (the option is read when the handler panics)
+    if !d.apiMode || !d.startOK || d.down || !(v == "on" || v == "off") || d.ids.any (fun (_, held, _) => held) then (d, "bad-op")
+    else ({ d with dev := v == "on" }, "ok")
+  | ["chan", c] =>
+    -- SetErrorReportingChannel(nil | make(chan *ModuleError, c)) before anything runs; from now on only `recv` reads it
+    if d.started || d.manual then (d, "bad-op") else
+    if c == "unset" then ({ d with manual := true, st := { d.st with chanSet := false, cap := 0 } }, "ok")
+    else match c.toNat? with
+      | some n => if n ≤ 64 then ({ d with manual := true, st := { d.st with chanSet := true, cap := n } }, "ok") else (d, "bad-op")
+      | none => (d, "bad-op")
+  | ["recv", k] =>
+    if !d.manual || !d.st.chanSet then (d, "bad-op") else
+    let n := if k == "all" then some (1 <<< 20) else k.toNat?
+    (match n with
+     | none => (d, "bad-op")
+     | some n =>
+       let (d1, reps) := recvK d n
+       (d1, s!"recv n={reps.length} reps={repsStr reps} ch={chLen d1.st}"))
   | [op, name] =>
     if op == "enable" || op == "disable" then
       if d.mgmt && d.mods.any (·.name == name) then
@@ -290,17 +333,17 @@ def handle (d : DSt) (line : String) : DSt × String :=
               | .mt b => b
               | _ => false
             let ret := if blocking then retStr it.cur it.ret else "-"
-            let http := if isApiKind it.kind then toString it.http else "-"
+            let http := if isApiKind it.kind then httpStr it else "-"
             let next := if it.kind == .svc then (if it.inFn then "reentered" else if it.done then "done" else "timeout") else "-"
             let exec := if it.kind == .task then toString it.executing else "-"
             ({ d2 with ids := setHeld d2.ids i it.inFn },
-             s!"finish ret={ret} http={http} next={next} exec={exec} sync=ok reps={repsStr reps} last={lastStr s'.last} cnt={cntStr s'}")
+             s!"finish ret={ret} http={http} next={next} exec={exec} sync=ok reps={repsStr reps} last={lastStr s'.last} cnt={cntStr s'} ch={chLen d2.st}")
         | _, _ => (d, "bad-op")
     else if op == "burst" then burst d [name]
     else (d, "bad-op")
   | ["start"] =>
     if d.started then (d, "bad-op") else
-    if d.apiMode then ({ d with started := true, startOK := true }, "start ret=nil reps=-") else
+    if d.apiMode then ({ d with started := true, startOK := true }, s!"start ret=nil reps=- ch={chLen d.st}") else
     let d0 := { d with started := true }
     let n := d.mods.length + 1
     let preps := passRounds n true prepRound { mods := d0.mods }
@@ -308,14 +351,14 @@ def handle (d : DSt) (line : String) : DSt × String :=
     | some e =>
       let d1 := pushReports { d0 with mods := preps.mods } preps.reps
       let (d2, reps) := drain d1
-      (d2, s!"start ret={ctrlRetStr (some e)} reps={repsStr reps}")
+      (d2, s!"start ret={ctrlRetStr (some e)} reps={repsStr reps} ch={chLen d2.st}")
     | none =>
       let needed := neededDeps n preps.mods []
       let starts := passRounds n true (startRound d0.mgmt needed) { mods := preps.mods }
       let d1 := pushReports { d0 with mods := starts.mods } (preps.reps ++ starts.reps)
       let (d2, reps) := drain d1
       let res := startResult preps.rets starts.rets
-      ({ d2 with startOK := res.isNone }, s!"start ret={ctrlRetStr res} reps={repsStr reps}")
+      ({ d2 with startOK := res.isNone }, s!"start ret={ctrlRetStr res} reps={repsStr reps} ch={chLen d2.st}")
   | ["manage"] =>
     if !d.started || !d.mgmt then (d, "bad-op") else
     let n := d.mods.length + 1
@@ -325,7 +368,7 @@ def handle (d : DSt) (line : String) : DSt × String :=
     -- reports of the subject's own stop are already in the feed
     let d2 := pushReports { d1 with mods := starts.mods } (sreps ++ starts.reps)
     let (d3, reps) := drain d2
-    (d3, s!"manage ret={ctrlRetStr (manageResult srets starts.rets)} reps={sortedRepsStr reps} st={statusesStr d3.mods}")
+    (d3, s!"manage ret={ctrlRetStr (manageResult srets starts.rets)} reps={sortedRepsStr reps} st={statusesStr d3.mods} ch={chLen d3.st}")
   | ["shutdown"] =>
     if !d.started then (d, "bad-op") else
     -- work that does not wait for the module context would keep Shutdown waiting for the stop timeout
@@ -333,15 +376,25 @@ def handle (d : DSt) (line : String) : DSt × String :=
     if d.apiMode then
       let (d1, _) := stopSubject d none
       let (d2, reps) := drain d1
-      ({ d2 with down := true }, s!"shutdown ret=nil reps={sortedRepsStr reps} slow=no st=")
+      ({ d2 with down := true }, s!"shutdown ret=nil reps={sortedRepsStr reps} slow=no st= ch={chLen d2.st}")
     else
     let (d1, srets, sreps) := stopPass d (fun _ => false)
     let d2 := pushReports d1 sreps
     let (d3, reps) := drain d2
     ({ d3 with down := true },
-     s!"shutdown ret={ctrlRetStr (shutdownResult srets)} reps={sortedRepsStr reps} slow=no st={statusesStr d3.mods}")
+     s!"shutdown ret={ctrlRetStr (shutdownResult srets)} reps={sortedRepsStr reps} slow=no st={statusesStr d3.mods} ch={chLen d3.st}")
   | "burst" :: a :: as => burst d (a :: as)
-  | ["status"] => (d, s!"cnt={cntStr d.st} last={lastStr d.st.last}")
+  | ["status"] => (d, s!"cnt={cntStr d.st} last={lastStr d.st.last} ch={chLen d.st}")
+  | ["recvn"] =>
+    if !d.manual || !d.st.chanSet then (d, "bad-op") else
+    let (d1, reps) := recvK d (1 <<< 20)
+    (d1, s!"recvn n={reps.length} ch={chLen d1.st}")
+  | ["park"] =>
+    -- a consumer blocks in a receive on the empty channel; what it gets is printed by the next `recv`
+    if !d.manual || !d.st.chanSet || chLen d.st != 0 then (d, "bad-op") else
+    (match step d.st .recv with
+     | some s1 => ({ d with st := s1 }, s!"park ok waiting={s1.waiting}")
+     | none => (d, "bad-op"))
   | ["settle"] => (d, s!"cnt={cntStr d.st} others=clean")
   | "spawn" :: id :: kind :: outs :: rest =>
     let flag := match rest with
@@ -356,7 +409,7 @@ def handle (d : DSt) (line : String) : DSt × String :=
         || (k == .hook && statusOf d.mods "B" != 5)
         || (k == .task && taskBusy d)
       if bad then (d, "bad-op") else
-      let k' := if api then Kind.api (fl == "afterwrite") else k
+      let k' := if api then Kind.api (fl == "afterwrite") d.dev else k
       let i := d.st.items.length
       match step d.st (.spawn { kind := k', outs := os }) with
       | none => (d, "bad-op")
